@@ -27,7 +27,7 @@ func init() {
 	}
 	ExpectedProbes["deque/C15"] = []string{
 		"pop-to-empty-under-iter", "resize-wrapped-under-iter", "set-under-iter",
-		"iter-panicked", "iter-called-again-after-panic", "iter-exhausted-clean",
+		"iter-panicked", "iter-called-again-after-panic", "iter-exhausted-clean", "iter-gen-wrap",
 	}
 }
 
@@ -155,6 +155,7 @@ func dqSafeNext(it iterator.Iterator[*dqVal]) (item *dqVal, ok bool, panicked bo
 // ---- the world ----------------------------------------------------------------------------------
 
 type dqW struct {
+	wrapped bool
 	r      *R
 	d      deque.Deque[*dqVal] // used from its zero value
 	m      dqModel
@@ -852,9 +853,61 @@ func (w *dqW) mutate(op int) {
 	w.do(op, arg)
 }
 
+// genWrap: between two consecutive calls of one iterator that is under way, exactly 256 (rarely
+// 65536) modifications are made - as many as a narrow modification counter needs to come round to
+// the value the iterator remembers. Its next call must panic like after any other modification.
+func (w *dqW) genWrap(k int) {
+	r := w.r
+	it := w.iters[k]
+	// make room first, so that none of the counted pushes has to resize (a resize is a
+	// modification of its own)
+	w.do(dqPushBack, 0)
+	w.do(dqPopBack, 0)
+	if r.Failed() {
+		return
+	}
+	for q, o := range w.iters {
+		if o == it {
+			w.iterNext(q)
+		}
+	}
+	if r.Failed() || it.exhausted || it.poisoned || !it.started {
+		return
+	}
+	found := false
+	for _, o := range w.iters {
+		found = found || o == it
+	}
+	if !found {
+		return
+	}
+	pairs := 128
+	if r.Tier == "thorough" && r.Choose(8, "wrap-64k") == 7 {
+		pairs = 32768
+	}
+	r.Probe("iter-gen-wrap")
+	for i := 0; i < pairs && !r.Failed(); i++ {
+		w.do(dqPushBack, 0)
+		w.do(dqPopBack, 0)
+	}
+	if r.Failed() {
+		return
+	}
+	for q, o := range w.iters {
+		if o == it {
+			w.iterNext(q)
+		}
+	}
+}
+
 func (w *dqW) iterAction(preferNext bool) {
 	r := w.r
 	live := len(w.iters)
+	if live > 0 && !w.wrapped && r.Choose(48, "gen-wrap") == 47 {
+		w.wrapped = true // once per run
+		w.genWrap(r.Choose(live, "iter-pick"))
+		return
+	}
 	c := r.Choose(8, "iter-act")
 	switch {
 	case live == 0 || (c == 0 && live < 3 && !preferNext):
